@@ -331,7 +331,7 @@ def dispatchSpec : Spec :=
              (("p2p.SubscribeMsg.dosnode.queryLoop", 0), ['s'])],
     cons := [(("dosnode.dispatchSign.out", 0), .ctx)],
     ctl := [.feed 2, .feed 0, .feed 1, .cancel, .go, .release],
-    pick := [("if r := bytes.Compare(p.GetID(), submitter); r != 0", 1)], obs := [("dosnode.dispatchSign.out", 0)] }
+    pick := [("if r != 0", 1)], obs := [("dosnode.dispatchSign.out", 0)] }
 
 /-- corpus/C14/stages.txt: recoverSign gets a share without a signature, nobody reads its errors -/
 def recoverSpec : Spec :=
@@ -365,10 +365,15 @@ def Scenario.firstOpen (sc : Scenario) (s : State) : Bool :=
   | c :: _ => !s.closed c
   | [] => false
 
-/-- decisions are matched by their exact text here (kernel-evaluable) -/
+/-- decisions are matched by their exact text here (kernel-evaluable).  TOTAL: when a name of the
+    spec no longer resolves in `p` the result is the empty default scenario — every theorem that uses
+    `scOf p sp` is therefore accompanied by `resolves p sp = true` (theorems `*_scenarios_resolve`). -/
 def scOf (p : Pipeline) (sp : Spec) : Scenario :=
   match Scenario.ofSpec (fun a b => a == b) p sp with
   | some sc => sc
   | none => default
+
+def resolves (p : Pipeline) (sp : Spec) : Bool :=
+  sp.resolves (fun a b => a == b) p && (Scenario.ofSpec (fun a b => a == b) p sp).isSome
 
 end Dos.Pipe.Wit
